@@ -807,6 +807,55 @@ func (fr *frame) callStdlib(p *Path, e *ast.CallExpr, name string, recv Value, a
 			c.AxiomsUsed["A3"] = true
 			return fr.sprintf(p, e, f, args[1:])
 		}
+	case "fmt.Sprint":
+		if len(args) == 1 {
+			c.AxiomsUsed["A3"] = true
+			return fr.sprintfAt(p, e, "%v", args, 0)
+		}
+	case "fmt.Fprintf":
+		// fmt.Fprintf(builder, format, args...): the rendered text is appended to the builder variable
+		if len(args) >= 2 {
+			if b, ok := args[0].(*BuilderVal); ok {
+				if f, ok := constString(args[1]); ok {
+					if id, ok := builderIdent(e.Args[0]); ok {
+						if obj, ok := fr.info.Uses[id].(*types.Var); ok {
+							c.AxiomsUsed["A3"] = true
+							c.AxiomsUsed["A4"] = true
+							var out []PV
+							for _, pv := range fr.sprintfAt(p, e, f, args[2:], 2) {
+								t, ok := asTerm(pv.V)
+								if !ok {
+									out = append(out, pv)
+									continue
+								}
+								pv.P.Vars[obj] = &BuilderVal{Content: tConcat(b.Content, t)}
+								out = append(out, PV{pv.P, &TupleVal{[]Value{tStrLen(t), errNil}}})
+							}
+							return out
+						}
+					}
+				}
+			}
+		}
+	case "strings.Builder.WriteByte", "bytes.Buffer.WriteByte", "strings.Builder.WriteRune", "bytes.Buffer.WriteRune":
+		if b, ok := recv.(*BuilderVal); ok && len(args) == 1 {
+			if ch, ok := asTerm(args[0]); ok {
+				if n, ok := ch.C.(int64); ok && n > 0 && n < 0x110000 {
+					if sel, ok := e.Fun.(*ast.SelectorExpr); ok {
+						if id, ok := builderIdent(sel.X); ok {
+							if obj, ok := fr.info.Uses[id].(*types.Var); ok {
+								c.AxiomsUsed["A4"] = true
+								p.Vars[obj] = &BuilderVal{Content: tConcat(b.Content, mkStr(string(rune(n))))}
+								if strings.HasSuffix(name, "WriteByte") {
+									return one(p, errNil)
+								}
+								return one(p, &TupleVal{[]Value{mkInt(int64(len(string(rune(n))))), errNil}})
+							}
+						}
+					}
+				}
+			}
+		}
 	case "github.com/goark/errs.WithContext":
 		return one(p, NoOptVal{})
 	case "github.com/goark/errs.WithCause":
@@ -923,7 +972,7 @@ func (fr *frame) callStdlib(p *Path, e *ast.CallExpr, name string, recv Value, a
 			if r, ok := asTerm(args[1]); ok && r.Sort == SReader {
 				c.AxiomsUsed["A6"] = true
 				var obj *types.Var
-				if id, ok := e.Args[0].(*ast.Ident); ok {
+				if id, ok := builderIdent(e.Args[0]); ok {
 					obj, _ = fr.info.Uses[id].(*types.Var)
 				}
 				okT := app(SBool, "reader_ok", r)
@@ -965,7 +1014,7 @@ func (fr *frame) callStdlib(p *Path, e *ast.CallExpr, name string, recv Value, a
 			if ok1 && ok2 && d.Sort == SInt {
 				c.AxiomsUsed["A6"] = true
 				var obj *types.Var
-				if id, ok := e.Args[0].(*ast.Ident); ok {
+				if id, ok := builderIdent(e.Args[0]); ok {
 					obj, _ = fr.info.Uses[id].(*types.Var)
 				}
 				okT := app(SBool, "tt_exec_ok", t.Src, d)
@@ -1000,6 +1049,11 @@ func (fr *frame) callStdlib(p *Path, e *ast.CallExpr, name string, recv Value, a
 }
 
 func (fr *frame) sprintf(p *Path, e *ast.CallExpr, format string, args []Value) []PV {
+	return fr.sprintfAt(p, e, format, args, 1)
+}
+
+// sprintfAt: off = index in e.Args of the first formatted argument (1 for Sprintf, 2 for Fprintf, 0 for Sprint)
+func (fr *frame) sprintfAt(p *Path, e *ast.CallExpr, format string, args []Value, off int) []PV {
 	c := p.C
 	type piece struct {
 		lit string
@@ -1041,7 +1095,7 @@ func (fr *frame) sprintf(p *Path, e *ast.CallExpr, format string, args []Value) 
 				continue
 			}
 			// Stringer
-			at := fr.info.Types[e.Args[k+1]].Type
+			at := fr.info.Types[e.Args[k+off]].Type
 			ms := types.NewMethodSet(at)
 			var strM *types.Func
 			for i := 0; i < ms.Len(); i++ {
@@ -1511,4 +1565,14 @@ func mentionsGhost(n *Node, ct *Contract) bool {
 		}
 	}
 	return false
+}
+
+// builderIdent: buf or &buf
+func builderIdent(e ast.Expr) (*ast.Ident, bool) {
+	e = ast.Unparen(e)
+	if u, ok := e.(*ast.UnaryExpr); ok && u.Op == token.AND {
+		e = ast.Unparen(u.X)
+	}
+	id, ok := e.(*ast.Ident)
+	return id, ok
 }
